@@ -54,12 +54,15 @@ func init() {
 			{ID: "K3", Floor: 90, Doc: "decoders and conversions are the identity on every lane; mask/Type switch tables agree", Run: c10K3},
 			{ID: "K4", Floor: 19, Doc: "lane layout makes integer order (kind, ref, version) order; id sorts use strict ascending <", Run: c10K4},
 			{ID: "K5", Floor: 59, Doc: "parsers test every error, accept exactly the kind/ref[:version] arities, rebuild the K2 id; String format mirrors the parser", Run: c10K5},
+			{ID: "K6", Floor: 5, Doc: "numeric text is parsed base 10 with a width covering the whole reference / version range", Run: c10K6},
 		},
 		Mutants: c10Mutants,
 	})
 }
 
 var c10Mutants = []core.Mutant{
+	{Name: "k6-version-parsed-16-bit", File: "element.go", Find: "strconv.ParseInt(parts2[1], 10, 64)", Replace: "strconv.ParseInt(parts2[1], 10, 16)", ExpectRule: "K6", ExpectConstruct: "ParseElementID"},
+	{Name: "k6-ref-parsed-32-bit", File: "feature.go", Find: "strconv.ParseInt(parts[1], 10, 64)", Replace: "strconv.ParseInt(parts[1], 10, 32)", ExpectRule: "K6", ExpectConstruct: "ParseFeatureID"},
 	// K1
 	{Name: "versionmask-15-bits", File: "feature.go", Find: "versionMask = 0x000000000000FFFF", Replace: "versionMask = 0x0000000000007FFF", ExpectRule: "K1", ExpectConstruct: "versionMask"},
 	{Name: "refmask-drops-bit0", File: "feature.go", Find: "refMask     = 0x00FFFFFFFFFF0000", Replace: "refMask     = 0x00FFFFFFFFFE0000", ExpectRule: "K1", ExpectConstruct: "refMask"},
